@@ -21,7 +21,7 @@ for d in sorted(glob.glob("/verif/seeded/*")):
     origin = "written by an independent sub-agent that saw only the property text and a scratch worktree"
     if re.search(r"-s\d+$", sid):
         origin = "written by the author of the checks (not a sub-agent) to exercise one particular seam; see notes.md"
-    if re.search(r"-[hgknpq]\d+$", sid):
+    if re.search(r"-[hgknpqu]\d+$", sid):
         m = re.findall(r"\bC(\d\d)\b", notes)
         prop = "C" + m[0] if m else "see notes"
         origin = "written by an independent sub-agent that saw the 19 property statements and a scratch worktree, asked for the hardest-to-detect change in one source area"
